@@ -57,6 +57,7 @@ PROPS = {
  'add_symlink encodes the UDF target before': ('C14', 'add_symlink(iso+rr+joliet+udf, udf_target with a 255-character component) refused after the namespaces were modified: next image differs (udf tag 261)'),
  'removed entry leaves the Rock Ridge lookup list': ('C07', 'add_fp(A); rm_file(A): get_record(rr_path=/a) on the editing object still returns the removed record (oracle_live, removed names must not resolve)'),
  'sorts after every entry is refused, not an IndexError': ('C07', 'get_record(rr_path=/b) with only /a present raised IndexError in _find_rr_record'),
+ 'hybrid MBR points at the boot file of the El Torito Initial Entry': ('C12', 'add_eltorito(A boot); add_eltorito(Z second x86 entry); add_isohybrid: MBR boot-file address = 4 x sector of Z (modes bios2 / efibios2)'),
  'resolve a relocated Rock Ridge directory through its link': ('C01', 'two depth-8 directories with the same Rock Ridge name in different parents: the second is missing from the Rock Ridge view (reloc-collide chain)'),
 }
 log = subprocess.run(['git', '-C', '/repo', 'log', '--reverse', '--format=%h\t%s', '1c3f835..HEAD'], stdout=subprocess.PIPE).stdout.decode().strip().splitlines()
